@@ -26,6 +26,9 @@ def run(ctx):
     from . import callsigs as _cs
     from . import meta_rules
     meta_rules.rowcount_rule(ctx, 'R19.5', only_modules={'api', 'writer'})
+    ar.mode_params_rule(ctx, 'R19.6')
+    from . import c08 as _c08
+    _c08.r84(ctx, ctx.repo['util'])
     _cs.general_rules(ctx, 'R19', ['writer.write', 'writer.write_multi', 'writer.partition_on_columns', 'writer.make_part_file', 'api.ParquetFile.write_row_groups', 'api.ParquetFile._write_common_metadata', 'writer.write_common_metadata'])
     ar.open_close_pairing_rule(ctx, 'R19.6')
     ar.single_pass_data_rule(ctx, 'R19.7')
